@@ -338,7 +338,7 @@ class Gen:
             elif x < 0.38 and self.o["comments"]:
                 out += self.comment()
             elif x < 0.44 and self.o["strings"]:
-                s = r.choice(['"s"', '"a b"', '"`x"', '"\\""', '"é"' if self.o["nonascii"] else '"e"'])
+                s = r.choice(['"s"', '"a b"', '"`x"', '"\\""', '"é"' if self.o["nonascii"] else '"e"', '"C:\\\\"', '"\\\\"', '"a\\\\b\\n"'])
                 # directly followed by a token: trailing trivia of strings is the known class D6
                 out += [Str(s), Tok(";"), self.blank()]
             elif x < 0.47 and self.o["strings"]:
@@ -459,7 +459,8 @@ class Gen:
         """define / change / observe one macro across files and macro bodies: the multi-step histories
         (undef inside an include or a macro body, identical redefinition elsewhere, escaped spellings)"""
         r = self.r
-        X = r.choice(MACROS)
+        # (now and then one of the predefined coverage macros: redefining it is an ordinary definition)
+        X = r.choice(MACROS) if r.random() < 0.88 else r.choice(["SV_COV_START", "SV_COV_OK", "SV_COV_ERROR"])
         nl = lambda: self.blank(True)
         sp = lambda n: ("\\" + n) if r.random() < 0.25 else n
         b1 = r.choice(IDS)
@@ -473,6 +474,8 @@ class Gen:
             inner = self.newfile([Define(sp(X), None, b1), nl()])
             out += self.newfile(inner)
         M = r.choice([m for m in MACROS if m != X])
+        if X.startswith("SV_COV_") and how == "none":
+            out += [Define(X, None, b1), nl()]      # make sure it is redefined by the text
         k = r.choice(["undef", "undef_inc", "undef_macro", "undefall_inc", "redef_same", "redef_same_inc", "redef_diff",
                       "redef_diff_inc", "nothing", "undef_nested_inc", "undef_macro_nested", "undefall_macro_inc",
                       "undef_esc", "redef_same_twice"])
